@@ -230,8 +230,12 @@ pub fn persist_temp_file<P: AsRef<Path>>(
     temp_file: NamedTempFile,
     new_path: P,
 ) -> io::Result<File> {
+    #[cfg(feature = "verif-hooks")]
+    crate::verif_hooks::crash_point("persist_temp_file.before_sync");
     // Ensure persisted file content is flushed to disk.
     temp_file.as_file().sync_data()?;
+    #[cfg(feature = "verif-hooks")]
+    crate::verif_hooks::crash_point("persist_temp_file.before_rename");
     temp_file
         .persist(new_path)
         .map_err(|PersistError { error, file: _ }| error)
@@ -245,7 +249,11 @@ pub fn persist_content_addressed_temp_file<P: AsRef<Path>>(
 ) -> io::Result<File> {
     // Ensure new file content is flushed to disk, so the old file content
     // wouldn't be lost if existed at the same location.
+    #[cfg(feature = "verif-hooks")]
+    crate::verif_hooks::crash_point("persist_content_addressed.before_sync");
     temp_file.as_file().sync_data()?;
+    #[cfg(feature = "verif-hooks")]
+    crate::verif_hooks::crash_point("persist_content_addressed.before_rename");
     if cfg!(windows) {
         // On Windows, overwriting file can fail if the file is opened without
         // FILE_SHARE_DELETE for example. We don't need to take a risk if the
